@@ -45,9 +45,14 @@ OBLIGATIONS = {
     "log_mode": "a zero-free model was decoded with logarithmic tables",
     "greedy_fails": "the optimum does not start with the best first-epoch state (a greedy decoder would be wrong)",
     "epoch_dependent_transitions": "the transition tables of two epochs differ",
+    "likelihood_above_one": "an unnormalised model with a likelihood > 1 (negative cost) on its optimal sequence",
+    "worse_prefix_wins": "every optimal sequence reaches some epoch k+1 from a state m of epoch k although a state listed "
+                         "before m, joined to the same successor, is already at least as good as m's prefix alone (pruning "
+                         "predecessors by their accumulated cost would lose the optimum)",
 }
 
 VALUE_SETS = [(0.0, 0.5, 1.0), (0.0, 0.25, 1.0), (0.0, 0.5, 2.0), (0.0, 1.0, 4.0)]
+AROUND_ONE = [(0.5, 1.0, 4.0), (0.25, 1.0, 8.0), (0.5, 2.0, 8.0), (0.25, 0.5, 4.0)]
 
 
 def _vals(variant, which):
@@ -56,6 +61,8 @@ def _vals(variant, which):
         return alpha.order(variant, [z, a, b])
     if which == "zero-top":
         return alpha.order(variant, [z, b])
+    if which == "around-one":                     # unnormalised likelihoods on both sides of 1: costs of both signs, so a
+        return alpha.order(variant, AROUND_ONE[variant])   # predecessor that is worse so far can still win
     return alpha.order(variant, [a, b])          # "nonzero"
 
 
@@ -71,8 +78,10 @@ def _spaces(tier, variant):
             sp.append((sizes, "zero-top"))
             if T <= 2 or sizes != (2, 2, 2):
                 sp.append((sizes, "three"))
+                sp.append((sizes, "around-one"))
     if tier == "thorough":
         sp.append(((2, 2, 2), "three"))
+        sp.append(((2, 2, 2), "around-one"))
         for sizes in itertools.product((1, 2), repeat=4):
             sp.append((sizes, "nonzero"))
         for T in (1, 2, 3):
@@ -215,6 +224,25 @@ def check_model(variant, sizes, flat, ctx):
             firsts = set(sq[0] for sq, v in zip(itertools.product(*[range(s) for s in sizes]), liks) if v == best)
             if all(P[0][a] < top for a in firsts):
                 ctx.oblige("greedy_fails")
+    if best > 0 and T >= 2:
+        seqs = list(itertools.product(*[range(s_) for s_ in sizes]))
+        opt = [sq for sq, v in zip(seqs, liks) if v == best]
+        if all(any(x > 1 for x in [P[k][a] for k, a in enumerate(sq)] + [Q[k][sq[k]][sq[k + 1]] for k in range(T - 1)])
+               for sq in opt):
+            ctx.oblige("likelihood_above_one")
+
+        def prefix_best(k, a):       # best likelihood of a prefix ending in state a of epoch k
+            return max(likelihood(P[:k + 1], Q[:k], pre + (a,)) for pre in itertools.product(*[range(s_) for s_ in sizes[:k]]))
+
+        def pruned(sq):              # would "skip m when its prefix alone is no better than the best candidate so far" lose sq?
+            for k in range(T - 1):
+                m, nx = sq[k], sq[k + 1]
+                for e in range(sizes[k]):
+                    if e != m and prefix_best(k, e) * Q[k][e][nx] >= prefix_best(k, m) > 0:
+                        return True
+            return False
+        if all(pruned(sq) for sq in opt) and len(set(liks)) >= 2:
+            ctx.oblige("worse_prefix_wins")
     if len(set(sizes)) > 1:
         ctx.oblige("unequal_candidate_counts")
     if T >= 3 and sizes[0] == sizes[1] == sizes[2] and Q[0] != Q[1]:
